@@ -211,6 +211,30 @@ func clientCase(c *h.Case, kind string, limit int) {
 		r.Distinct(cell)
 	}
 	r.SetAdd("limits", strconv.Itoa(limit))
+	// the limit is lowered while the client's connection is established: it applies to the very next request
+	if limit >= 64 {
+		lower := limit / 2
+		svc.MaxRequestLength = lower
+		for _, size := range []int{lower + 1, limit - 1, limit, lower, lower - 1} {
+			req, _, _ := request(size)
+			ctx, _ := peer.Ctx(client, 20*time.Second)
+			_, err := client.Request(ctx, req)
+			r.Eval(1)
+			ioLens, funcLens := m.take()
+			rep := map[string]interface{}{"transport": kind, "limit_before": limit, "limit_now": lower, "size": size}
+			if size > lower {
+				if len(ioLens) > 0 || len(funcLens) > 0 {
+					c.Violation("oversized-request-processed:"+kind+":limit-lowered-on-a-live-connection", fmt.Sprintf("MaxRequestLength was lowered from %d to %d after the connection had been used; a request of %d bytes was processed (IO plugin saw %v)", limit, lower, size, ioLens), rep)
+				}
+				if err == nil || !errors.Is(err, core.ErrRequestEntityTooLarge) {
+					c.Violation("oversized-request-wrong-error:"+kind+":limit-lowered-on-a-live-connection", fmt.Sprintf("size %d over the lowered limit %d: err=%v", size, lower, err), rep)
+				}
+			} else if err != nil || len(ioLens) != 1 {
+				c.Violation("request-within-limit-refused:"+kind+":limit-lowered-on-a-live-connection", fmt.Sprintf("size %d within the lowered limit %d: err=%v, IO plugin saw %v", size, lower, err, ioLens), rep)
+			}
+			r.Distinct(fmt.Sprintf("%s lowered %d->%d size=%d", kind, limit, lower, size))
+		}
+	}
 }
 
 func clip(b []byte, n int) []byte {
@@ -425,6 +449,24 @@ func rawHTTP(c *h.Case, kind string, limit int) {
 		invariant(c, m, kind, "truthful", limit, want, rep)
 		if actual > limit && !bytes.Contains([]byte(st), []byte("413")) {
 			c.Violation("oversized-request-not-signalled:"+kind+":truthful", fmt.Sprintf("limit %d, %d bytes: status %q", limit, actual, st), rep)
+		}
+		// the same with method GET (hprose accepts GET bodies): the limit applies all the same
+		if actual > limit {
+			func() {
+				conn, err := net.DialTimeout("tcp", srv.Addr, 2*time.Second)
+				if err != nil {
+					return
+				}
+				defer conn.Close()
+				go func() {
+					fmt.Fprintf(conn, "GET / HTTP/1.1\r\nHost: x\r\nContent-Length: %d\r\nConnection: close\r\n\r\n", actual)
+					conn.Write(body)
+				}()
+				conn.SetReadDeadline(time.Now().Add(time.Second))
+				io.ReadAll(conn)
+			}()
+			settle()
+			invariant(c, m, kind, "GET-with-body", limit, -1, rep)
 		}
 		st = post("Transfer-Encoding: chunked\r\n", body, true)
 		settle()
